@@ -112,7 +112,7 @@ class Ctx:
     def observe(self, name, item):
         """distinct things seen (node types, branches, fault points...)"""
         s = self.sets[name]
-        if len(s) < 5000:
+        if len(s) < 20000:
             s.add(item if isinstance(item, (str, int)) else repr(item))
 
     def sample(self, x, cap=6):
